@@ -76,7 +76,7 @@ package interp
 
 // runCfg: every application of an exec closure is guarded by the run-id test, in both loops.
 //@ func runCfg(n, f, funcNode, callNode)
-//@   props C09 C19
+//@   props C09 C10 C19
 //@   opt loops = havoc
 //@   opt safety = off
 //@   opt defer = skip
